@@ -97,3 +97,43 @@ Definition ann_okb (ss : list sofa) (a : dann) : bool :=
   | Some t, Some b, Some e => (0 <=? b) && (b <=? e) && (e <=? Z.of_nat (List.length t))
   | _, _, _ => false
   end.
+
+(* ---- which sofa is an annotation's own: the operations that (re)assign fs.sofa and the offsets ---- *)
+(* cas.py Cas.add: `if hasattr(annotation, "sofa"): annotation.sofa = self.get_sofa()` — unconditionally, also for an
+   annotation that already has a sofa (it was indexed in another view before, or was taken from a loaded CAS);
+   Cas.remove only takes the structure out of the index of the current view and leaves fs.sofa alone; besides, sofa,
+   begin and end are plain attributes that user code assigns. *)
+Inductive aop :=
+| AAdd (v : nat)              (* views[v].add(fs) *)
+| ARemove                     (* view.remove(fs) *)
+| ASofa (v : nat)             (* fs.sofa = views[v].get_sofa() *)
+| AOff (b e : option Z).      (* fs.begin = b; fs.end = e *)
+Definition ann_step (a : dann) (o : aop) : dann :=
+  match o with
+  | AAdd v => mkDann v (da_b a) (da_e a)
+  | ARemove => a
+  | ASofa v => mkDann v (da_b a) (da_e a)
+  | AOff b e => mkDann (da_view a) b e
+  end.
+Definition ann_run (a : dann) (ops : list aop) : dann := fold_left ann_step ops a.
+(* specification side: the view an annotation belongs to is the one it was added to (or assigned the sofa of) last;
+   its offsets are the ones assigned last *)
+Fixpoint last_view (ops : list aop) (d : nat) : nat :=
+  match ops with
+  | [] => d
+  | AAdd v :: r => last_view r v
+  | ASofa v :: r => last_view r v
+  | _ :: r => last_view r d
+  end.
+Fixpoint last_off (ops : list aop) (d : option Z * option Z) : option Z * option Z :=
+  match ops with
+  | [] => d
+  | AOff b e :: r => last_off r (b, e)
+  | _ :: r => last_off r d
+  end.
+(* per-annotation operation lists applied to a list of annotations (a missing list = no operation) *)
+Fixpoint run_moves (anns : list dann) (mv : list (list aop)) : list dann :=
+  match anns, mv with
+  | a :: r, m :: mr => ann_run a m :: run_moves r mr
+  | _, _ => anns
+  end.
